@@ -91,11 +91,15 @@ class SeqProp:
             k += 1 + len(c.ops)
         return res
 
+    case_timeout = 10.0  # seconds one case may take on the implementation (a case takes milliseconds on the unchanged code)
+
     def safe_impl(self, case):
         try:
-            out = self.run_impl(case)
+            out = core.call_with_alarm(lambda: self.run_impl(case), self.case_timeout)
         except core.Timeout:
             out = ["timeout"] * len(case.ops)
+        except MemoryError:
+            out = ["memory-error"] * len(case.ops)
         if len(out) != len(case.ops):
             raise HarnessError(f"{self.pid}: implementation runner returned {len(out)} lines for {len(case.ops)} ops")
         return out
